@@ -128,29 +128,35 @@ impl Dense {
 /// Single-source distances by exhaustive relaxation, accumulating left to right from the
 /// source (the least fixpoint of d[t] = min_u d[u] + c(u,t)). Non-negative costs.
 pub fn sssp(d: &Dense, s: usize, weighted: bool) -> Vec<f64> {
+    // dense O(n^2) label-setting: settle the closest unsettled node, relax its arcs with the
+    // same left-to-right sum dist[u] + c(u,v). For non-negative costs this is the least
+    // fixpoint of d[t] = min_u d[u] + c(u,t).
     let n = d.n;
     let mut dist = vec![INF; n];
+    let mut done = vec![false; n];
     dist[s] = 0.0;
     loop {
-        let mut changed = false;
-        for u in 0..n {
-            if dist[u] == INF {
-                continue;
-            }
-            for v in 0..n {
-                let c = d.cost(u, v, weighted);
-                if c == INF {
-                    continue;
-                }
-                let nd = dist[u] + c;
-                if nd < dist[v] {
-                    dist[v] = nd;
-                    changed = true;
-                }
+        let mut u = usize::MAX;
+        let mut best = INF;
+        for i in 0..n {
+            if !done[i] && dist[i] < best {
+                best = dist[i];
+                u = i;
             }
         }
-        if !changed {
+        if u == usize::MAX {
             break;
+        }
+        done[u] = true;
+        for v in 0..n {
+            if d.mult[u][v] == 0 {
+                continue;
+            }
+            let c = if weighted { d.minw[u][v] } else { 1.0 };
+            let nd = dist[u] + c;
+            if nd < dist[v] {
+                dist[v] = nd;
+            }
         }
     }
     dist
@@ -265,6 +271,12 @@ pub fn all_shortest_paths(
 /// Betweenness from the definition: sum over ordered pairs (s,t), s != v != t, of
 /// sigma_st(v)/sigma_st, with sigma_st(v) = sigma_sv * sigma_vt when d_sv + d_vt == d_st.
 pub fn betweenness(d: &Dense, weighted: bool, normalized: bool, tol: f64) -> Vec<f64> {
+    let raw = betweenness_unscaled(d, weighted, tol);
+    scale_betweenness(d, &raw, normalized)
+}
+
+/// sum over ordered pairs, not yet halved / normalised
+pub fn betweenness_unscaled(d: &Dense, weighted: bool, tol: f64) -> Vec<f64> {
     let n = d.n;
     let dist: Vec<Vec<f64>> = apsp(d, weighted);
     let sigma: Vec<Vec<f64>> = (0..n)
@@ -276,34 +288,44 @@ pub fn betweenness(d: &Dense, weighted: bool, normalized: bool, tol: f64) -> Vec
             if s == t || dist[s][t] == INF {
                 continue;
             }
+            let c = dist[s][t];
+            let inv = 1.0 / sigma[s][t];
             for v in 0..n {
                 if v == s || v == t || dist[s][v] == INF || dist[v][t] == INF {
                     continue;
                 }
                 let a = dist[s][v] + dist[v][t];
-                let c = dist[s][t];
                 let on = if tol == 0.0 {
                     a == c
                 } else {
                     (a - c).abs() <= tol * 1.0f64.max(a.abs()).max(c.abs())
                 };
                 if on {
-                    b[v] += sigma[s][v] * sigma[v][t] / sigma[s][t];
+                    b[v] += sigma[s][v] * sigma[v][t] * inv;
                 }
             }
         }
     }
-    let nf = n as f64;
-    for x in b.iter_mut() {
-        if normalized {
-            if n > 2 {
-                *x /= (nf - 1.0) * (nf - 2.0);
-            }
-        } else if !d.directed {
-            *x /= 2.0;
-        }
-    }
     b
+}
+
+pub fn scale_betweenness(d: &Dense, raw: &[f64], normalized: bool) -> Vec<f64> {
+    let nf = d.n as f64;
+    raw.iter()
+        .map(|x| {
+            if normalized {
+                if d.n > 2 {
+                    x / ((nf - 1.0) * (nf - 2.0))
+                } else {
+                    *x
+                }
+            } else if !d.directed {
+                x / 2.0
+            } else {
+                *x
+            }
+        })
+        .collect()
 }
 
 /// Closeness from the definition (incoming distances).
